@@ -90,6 +90,52 @@ pub fn blocks(ctx: &Ctx, rep: &mut Report) {
             }
         }
     }
+    // BerExp at and next to every multiple of ln 2 (x = k ln 2 moved by up to 4 ulps either way,
+    // and the doubles next to k * 0.6931...): there the quotient x / ln 2 rounds across an
+    // integer and the remainder r = x - s ln 2 comes out as a tiny negative or a full ln 2
+    {
+        let mut rng = rng_for(ctx.seed, "c09-ln2-multiples");
+        for k in 0..=70u32 {
+            let base = rs::LN2 * k as f64;
+            let mut xs: Vec<f64> = vec![base];
+            let (mut up, mut dn) = (base, base);
+            for _ in 0..4 {
+                up = f64::from_bits(up.to_bits() + 1);
+                xs.push(up);
+                if dn > 0.0 {
+                    dn = f64::from_bits(dn.to_bits() - 1);
+                    xs.push(dn);
+                }
+            }
+            for &x in &xs {
+                for ccs in [1.0f64, SIGMIN_512 / rs::SIGMA_MAX, SIGMIN_1024 / rs::SIGMA_MAX, 0.83] {
+                    let z = rs::ber_threshold(x, ccs);
+                    let zb = z.to_be_bytes();
+                    // exactly at the threshold prefix, one below / above in the last byte, half
+                    // and double the threshold, random
+                    let mut cases: Vec<[u8; 7]> = vec![];
+                    let mut t7 = [0u8; 7];
+                    t7.copy_from_slice(&zb[..7]);
+                    cases.push(t7);
+                    for d in [1u64, 2, 256] {
+                        let top = u64::from_be_bytes([zb[0], zb[1], zb[2], zb[3], zb[4], zb[5], zb[6], 0]) >> 8;
+                        for v in [top.wrapping_sub(d), top + d, top / 2, top / 2 + d, top.saturating_mul(2).min((1 << 56) - 1), (top / 4) * 3] {
+                            let b = (v << 8).to_be_bytes();
+                            let mut c = [0u8; 7];
+                            c.copy_from_slice(&b[..7]);
+                            cases.push(c);
+                        }
+                    }
+                    cases.push(rng.gen());
+                    for c in cases {
+                        check_ber(x, ccs, c, rep);
+                    }
+                }
+                rep.count("ber_points_next_to_multiples_of_ln2", 1);
+            }
+            rep.nontrivial(format!("ber-ln2|{}", k).as_bytes());
+        }
+    }
     check_base(0, rep);
     check_base((1u128 << 72) - 1, rep);
     for k in 0..72 {
